@@ -29,8 +29,19 @@ use std::panic::{catch_unwind, AssertUnwindSafe};
 // error description (values come from the error value itself, never from message text, except the
 // coarse kind of source-less world errors)
 
+/// name of the ParseErrorKind variant, taken from the derived Debug rendering (`kind: InvalidSize`): the field is private and
+/// the Display wording is free to change
+fn debug_kind(dbg: &str) -> Option<&str> {
+    let i = dbg.find("kind: ")? + 6;
+    let rest = &dbg[i..];
+    let end = rest.find(|c: char| !(c.is_ascii_alphanumeric() || c == '_')).unwrap_or(rest.len());
+    if end == 0 { None } else { Some(&rest[..end]) }
+}
+
 fn world_parse_err(pe: &wow_world_messages::errors::ParseError) -> String {
     let text = format!("{}", pe);
+    let dbg = format!("{:?}", pe);
+    let dk = debug_kind(&dbg);
     let src = std::error::Error::source(pe);
     let (kind, extra) = match src {
         Some(s) => {
@@ -39,14 +50,18 @@ fn world_parse_err(pe: &wow_world_messages::errors::ParseError) -> String {
             } else if s.is::<std::string::FromUtf8Error>() {
                 ("String".to_string(), String::new())
             } else if let Some(io) = s.downcast_ref::<std::io::Error>() {
-                let k = if text.contains("buffer too small") { "BufferSizeTooSmall" } else { "Io" };
+                let k = match dk { Some("BufferSizeTooSmall") => "BufferSizeTooSmall", Some("Io") => "Io", _ => if text.contains("buffer too small") { "BufferSizeTooSmall" } else { "Io" } };
                 (k.to_string(), format!(",\"io_kind\":\"{:?}\"", io.kind()))
             } else {
                 ("DateTime".to_string(), String::new())
             }
         }
         None => {
-            if text.contains("invalid size") {
+            if dk == Some("InvalidSize") {
+                ("InvalidSize".to_string(), String::new())
+            } else if dk == Some("AllocationTooLargeError") {
+                ("AllocationTooLarge".to_string(), String::new())
+            } else if text.contains("invalid size") {
                 ("InvalidSize".to_string(), String::new())
             } else if text.contains("attempts to allocate") {
                 ("AllocationTooLarge".to_string(), String::new())
